@@ -7,8 +7,10 @@ pkg/backend/querier.go (`Query`: limit clamp with `QueryMaxLimit`, `cache` flag,
 (`GetOrCreate`: held cursor + `ApplyState`, otherwise `newCursor`; `Release`: `commit`, id zeroed when the
 cursor is not held), pkg/cursor/null.go (`emptyCur`: `Release` answers `State{}`).
 
-The store is the list of partitions (journal name → journal value). The order in which Go's map iteration
-hands the sources to `newCursor` is the parameter `perm` of every page.
+The store is the list of partitions (journal name → journal value). `newCursor` sorts its sources by tag line
+before it builds the mixer tree (f086c95), so the leaf order is a function of the source set: here the sources
+sorted by journal name (the harness' tag lines sort like its partition numbers). A page served while no
+partition matches keeps the request's query and position in its next request (a8a4a54).
 -/
 namespace Logrange.Rd
 
@@ -61,9 +63,11 @@ def resolve (store : List (Nat × Journal)) (q : Qry) : List (Nat × Journal) :=
   | none => store
   | some l => store.filter (fun p => l.contains p.1)
 
-/-- sources in the order `perm` names them (names `perm` omits keep the store order, at the end) -/
-def orderBy (perm : List Nat) (srcs : List (Nat × Journal)) : List (Nat × Journal) :=
-  (perm.filterMap (fun n => srcs.find? (·.1 == n))) ++ srcs.filter (fun p => !perm.contains p.1)
+/-- `sort.Slice(lines, …)`: the sources in tag-line order (insertion sort by journal name) -/
+def insertSrc (x : Nat × Journal) : List (Nat × Journal) → List (Nat × Journal)
+  | [] => [x]
+  | y :: ys => if x.1 ≤ y.1 then x :: y :: ys else y :: insertSrc x ys
+def sortSrcs (l : List (Nat × Journal)) : List (Nat × Journal) := l.foldr insertSrc []
 
 /-- `applyPos`: corner position or `applyStatePos` -/
 def applyPosText (c : Cur) (p : PosText) : Cur :=
@@ -74,8 +78,8 @@ def applyPosText (c : Cur) (p : PosText) : Cur :=
   | .map m => applyStatePos c m
 
 /-- `newCursor` (`none` = `errNoSources`, served by `emptyCur`) -/
-def newCur (store : List (Nat × Journal)) (perm : List Nat) (q : Qry) (p : PosText) : Option Cur :=
-  match orderBy perm (resolve store q) with
+def newCur (store : List (Nat × Journal)) (q : Qry) (p : PosText) : Option Cur :=
+  match sortSrcs (resolve store q) with
   | [] => none
   | srcs =>
     let mk : Nat × Journal → Src := fun x =>
@@ -100,13 +104,13 @@ def readLoop : Nat → Cur → List Rec → Cur × List Rec
     | none => (c, acc.reverse)
 
 /-- `Querier.Query` for one request; `maxLimit` = `QueryMaxLimit` -/
-def query (maxLimit : Nat) (srv : Server) (perm : List Nat) (req : Req) : Server × Page :=
+def query (maxLimit : Nat) (srv : Server) (req : Req) : Server × Page :=
   let lim := if req.limit > maxLimit then maxLimit else req.limit
   let cache := req.wait || lim ≠ req.limit
   match req.query with
   | none =>
-    -- empty query and no Src: no sources, `emptyCur`
-    (srv, { events := [], next := { limit := lim, wait := req.wait } })
+    -- empty query and no Src: no sources, the empty cursor; it hands the request's query and position back
+    (srv, { events := [], next := { query := none, pos := req.pos, limit := lim, wait := req.wait } })
   | some q =>
     -- GetOrCreate
     let found : Option Held := if req.id > 0 then srv.held.find? (·.id == req.id) else none
@@ -117,9 +121,9 @@ def query (maxLimit : Nat) (srv : Server) (perm : List Nat) (req : Req) : Server
       | none =>
         let id0 := if found.isSome then 0 else req.id     -- a failed ApplyState zeroes the id
         let (id, srv) := if id0 = 0 then (srv.nextId, { srv with nextId := srv.nextId + 1 }) else (id0, srv)
-        (cache, id, newCur srv.store perm q req.pos, srv)
+        (cache, id, newCur srv.store q req.pos, srv)
     match cur? with
-    | none => (srv, { events := [], next := { limit := lim, wait := req.wait } })
+    | none => (srv, { events := [], next := { query := some q, pos := req.pos, limit := lim, wait := req.wait } })
     | some c =>
       let c := offset c req.offset
       let (c, evs) := readLoop lim c []
@@ -145,7 +149,6 @@ structure Step where
   resume : Resume := .follow
   limit : Nat := 1
   wait : Bool := false
-  perm : List Nat := []
   store' : Option (List (Nat × Journal)) := none
 deriving Inhabited
 
@@ -161,11 +164,11 @@ def pagesFrom (maxLimit : Nat) (orig : Req) : Server → Page → List Step → 
   | srv, prev, st :: rest =>
     let srv := match st.store' with | some s => { srv with store := s } | none => srv
     let srv := if st.resume = .evicted then { srv with held := [] } else srv
-    let (srv, pg) := query maxLimit srv st.perm (nextReq orig prev st)
+    let (srv, pg) := query maxLimit srv (nextReq orig prev st)
     pg.events :: pagesFrom maxLimit orig srv pg rest
 
-def pages (maxLimit : Nat) (srv : Server) (perm : List Nat) (orig : Req) (steps : List Step) : List (List Rec) :=
-  let (srv, pg) := query maxLimit srv perm orig
+def pages (maxLimit : Nat) (srv : Server) (orig : Req) (steps : List Step) : List (List Rec) :=
+  let (srv, pg) := query maxLimit srv orig
   pg.events :: pagesFrom maxLimit orig srv pg steps
 
 end Logrange.Rd
